@@ -584,6 +584,9 @@ private:
       return nullptr;
     }
 
+    detail::dynamic_check(
+      count <= static_cast<std::size_t>(-1) / sizeof(T_CopyAndVerifyRangeEl),
+      "Range size overflows");
     detail::check_range_doesnt_cross_app_sbx_boundary<T_Sbx>(
       start, count * sizeof(T_CopyAndVerifyRangeEl));
 
